@@ -726,6 +726,7 @@ package mocrelay
 //@   ensures[C09] result != nil ==> (result.EventID == as(msg.Msg, *ServerOKMsg).EventID && !okPending(tokval(ss.okStat), result.EventID))
 //@   ensures[C09] result != nil ==> result.Accepted == (as(msg.Msg, *ServerOKMsg).Accepted && old(forall(i, 0, tokval(ss.okStat).size, i != msg.Idx ==> tokval(ss.okStat).s[as(msg.Msg, *ServerOKMsg).EventID][i].Accepted)))
 //@   ensures[C09] (result == nil && old(okPending(tokval(ss.okStat), as(msg.Msg, *ServerOKMsg).EventID))) ==> tokval(ss.okStat).s[as(msg.Msg, *ServerOKMsg).EventID][msg.Idx] == as(msg.Msg, *ServerOKMsg)
+//@   ensures[C09] result != nil ==> all(f, int, firstRejectingAfter(ss, as(msg.Msg, *ServerOKMsg).EventID, msg.Idx, as(msg.Msg, *ServerOKMsg), f) ==> hasprefix(okText(result), okText(okSlotAfter(ss, as(msg.Msg, *ServerOKMsg).EventID, msg.Idx, as(msg.Msg, *ServerOKMsg), f))))
 
 //@ func mergeHandlerSession.handleSendCountMsg
 //@   serves C09
@@ -737,6 +738,7 @@ package mocrelay
 //@   ensures[C09] (result != nil) == old(cntPending(tokval(ss.countStat), as(msg.Msg, *ServerCountMsg).SubscriptionID) && forall(i, 0, tokval(ss.countStat).size, i != msg.Idx ==> tokval(ss.countStat).counts[as(msg.Msg, *ServerCountMsg).SubscriptionID][i] != nil))
 //@   ensures[C09] result != nil ==> !cntPending(tokval(ss.countStat), as(msg.Msg, *ServerCountMsg).SubscriptionID)
 //@   ensures[C09] result != nil ==> (as(msg.Msg, *ServerCountMsg).Count <= result.Count && old(forall(i, 0, tokval(ss.countStat).size, i != msg.Idx ==> tokval(ss.countStat).counts[as(msg.Msg, *ServerCountMsg).SubscriptionID][i].Count <= result.Count)))
+//@   ensures[C09] result != nil ==> (result == as(msg.Msg, *ServerCountMsg) || old(exists(i, 0, tokval(ss.countStat).size, i != msg.Idx && tokval(ss.countStat).counts[as(msg.Msg, *ServerCountMsg).SubscriptionID][i] == result)))
 
 //@ func mergeHandlerSession.handleRecvEventMsg
 //@   serves C09
@@ -781,6 +783,12 @@ package mocrelay
 //@   ensures !tokheld(ss.reqStat) && reqWF(tokval(ss.reqStat)) && !tokheld(ss.okStat) && okWF(tokval(ss.okStat)) && !tokheld(ss.countStat) && cntWF(tokval(ss.countStat))
 //@   ensures (!typeis(msg.Msg, *ServerEOSEMsg) && !typeis(msg.Msg, *ServerEventMsg) && !typeis(msg.Msg, *ServerOKMsg) && !typeis(msg.Msg, *ServerCountMsg)) ==> result == msg.Msg
 //@   ensures (typeis(msg.Msg, *ServerEOSEMsg) || typeis(msg.Msg, *ServerEventMsg)) ==> (isnil(as(result, *ServerEOSEMsg)) || result == msg.Msg || isnil(as(result, *ServerEventMsg)))
+//@   ensures[C08] typeis(msg.Msg, *ServerEOSEMsg) ==> ((typeis(result, *ServerEOSEMsg) && as(result, *ServerEOSEMsg) != nil) == old(reqActive(tokval(ss.reqStat), as(msg.Msg, *ServerEOSEMsg).SubscriptionID) && othersEOSE(tokval(ss.reqStat), as(msg.Msg, *ServerEOSEMsg).SubscriptionID, msg.Idx)))
+//@   ensures[C08] (typeis(msg.Msg, *ServerEOSEMsg) && typeis(result, *ServerEOSEMsg) && as(result, *ServerEOSEMsg) != nil) ==> (result == msg.Msg && !reqActive(tokval(ss.reqStat), as(msg.Msg, *ServerEOSEMsg).SubscriptionID))
+//@   ensures[C08] (typeis(msg.Msg, *ServerEventMsg) && typeis(result, *ServerEventMsg) && as(result, *ServerEventMsg) != nil && old(reqActive(tokval(ss.reqStat), as(msg.Msg, *ServerEventMsg).SubscriptionID))) ==> (result == msg.Msg && lmMatch(tokval(ss.reqStat).matcher[as(msg.Msg, *ServerEventMsg).SubscriptionID], as(msg.Msg, *ServerEventMsg).Event))
+//@   ensures[C09] typeis(msg.Msg, *ServerOKMsg) ==> ((typeis(result, *ServerOKMsg) && as(result, *ServerOKMsg) != nil) == old(okPending(tokval(ss.okStat), as(msg.Msg, *ServerOKMsg).EventID) && forall(i, 0, tokval(ss.okStat).size, i != msg.Idx ==> tokval(ss.okStat).s[as(msg.Msg, *ServerOKMsg).EventID][i] != nil)))
+//@   ensures[C09] (typeis(msg.Msg, *ServerOKMsg) && typeis(result, *ServerOKMsg) && as(result, *ServerOKMsg) != nil) ==> (as(result, *ServerOKMsg).EventID == as(msg.Msg, *ServerOKMsg).EventID && !okPending(tokval(ss.okStat), as(msg.Msg, *ServerOKMsg).EventID))
+//@   ensures[C09] typeis(msg.Msg, *ServerCountMsg) ==> ((typeis(result, *ServerCountMsg) && as(result, *ServerCountMsg) != nil) == old(cntPending(tokval(ss.countStat), as(msg.Msg, *ServerCountMsg).SubscriptionID) && forall(i, 0, tokval(ss.countStat).size, i != msg.Idx ==> tokval(ss.countStat).counts[as(msg.Msg, *ServerCountMsg).SubscriptionID][i] != nil)))
 
 //@ func mergeHandlerSession.handleRecvMsg
 //@   serves C08 C09
@@ -790,6 +798,10 @@ package mocrelay
 //@   writes token(ss.reqStat), token(ss.okStat), token(ss.countStat), contents(tokval(ss.reqStat).eose), contents(tokval(ss.reqStat).lastEvent), contents(tokval(ss.reqStat).seen), contents(tokval(ss.reqStat).matcher), eachkey(k, tokval(ss.reqStat).seen, contents(tokval(ss.reqStat).seen[k])), eachkey(k, tokval(ss.reqStat).matcher, each(i, 0, len(lmList(tokval(ss.reqStat).matcher[k])), lmList(tokval(ss.reqStat).matcher[k])[i].cnt)), contents(tokval(ss.okStat).s), contents(tokval(ss.countStat).counts)
 //@   ensures !tokheld(ss.reqStat) && reqWF(tokval(ss.reqStat)) && !tokheld(ss.okStat) && okWF(tokval(ss.okStat)) && !tokheld(ss.countStat) && cntWF(tokval(ss.countStat))
 //@   ensures result == msg
+//@   ensures[C08] typeis(msg, *ClientCloseMsg) ==> !reqActive(tokval(ss.reqStat), as(msg, *ClientCloseMsg).SubscriptionID)
+//@   ensures[C08] typeis(msg, *ClientReqMsg) ==> (reqActive(tokval(ss.reqStat), as(msg, *ClientReqMsg).SubscriptionID) && forall(i, 0, tokval(ss.reqStat).size, !tokval(ss.reqStat).eose[as(msg, *ClientReqMsg).SubscriptionID][i]))
+//@   ensures[C09] typeis(msg, *ClientEventMsg) ==> okOwed(tokval(ss.okStat), as(msg, *ClientEventMsg).Event.ID) == old(okOwed(tokval(ss.okStat), as(msg, *ClientEventMsg).Event.ID)) + 1
+//@   ensures[C09] typeis(msg, *ClientCountMsg) ==> cntOwed(tokval(ss.countStat), as(msg, *ClientCountMsg).SubscriptionID) == old(cntOwed(tokval(ss.countStat), as(msg, *ClientCountMsg).SubscriptionID)) + 1
 
 // ---------------------------------------------------------------------------------------------
 // C01: event authenticity
@@ -1317,6 +1329,7 @@ package mocrelay
 //@   ensures[C16] typeis(msg, *ClientEventMsg) ==> (holdsOneS(result0) && isOKFor(chanbuf(result0)[0], as(msg, *ClientEventMsg).Event.ID) && as(chanbuf(result0)[0], *ServerOKMsg).Accepted == g(lastadd, h.c))
 //@   ensures[C16] (typeis(msg, *ClientEventMsg) && !g(lastadd, h.c)) ==> as(chanbuf(result0)[0], *ServerOKMsg).MsgPrefix == MachineReadablePrefixDuplicate
 //@   ensures[C16] typeis(msg, *ClientReqMsg) ==> isReqReply(result0, as(msg, *ClientReqMsg).SubscriptionID, g(lastfind, h.c))
+//@   ensures[C16] typeis(msg, *ClientReqMsg) ==> g(lastfindfilters, h.c) == as(msg, *ClientReqMsg).ReqFilters
 //@   ensures[C16] typeis(msg, *ClientCountMsg) ==> (holdsOneS(result0) && isCountFor(chanbuf(result0)[0], as(msg, *ClientCountMsg).SubscriptionID))
 //@   ensures[C16] (typeis(msg, *ClientCloseMsg) || typeis(msg, *ClientAuthMsg)) ==> isnil(result0)
 //@   loop 1 as i
